@@ -481,3 +481,162 @@ pub fn case_str_bytes_cmp() -> Vec<String> {
     let s = "ab";
     vec![format!("{:?}", s.as_bytes().len()), format!("{}", s.as_bytes()[1]), format!("{}", "abc".cmp("abd") == std::cmp::Ordering::Less), format!("{}", "b" > "a"), format!("{:?}", "x".to_owned() + "y")]
 }
+pub fn case_alias_a() -> Vec<i64> { let mut v = vec![1, 2, 3]; for x in v.iter_mut() { *x *= 3; } v }
+pub fn case_alias_b() -> Vec<i64> { let mut v = vec![1, 2, 3]; for x in &mut v { if *x > 1 { *x -= 1; } } v }
+pub fn case_alias_c() -> Vec<i64> { let mut v = vec![1, 2, 3]; for (i, x) in v.iter_mut().enumerate() { *x += i as i64; } v }
+pub fn case_alias_d() -> Vec<i64> { let mut v = vec![1, 2, 3]; for x in v.iter_mut() { *x = *x * 3; } v }
+pub fn case_alias_e() -> Vec<i64> { let mut acc = vec![1]; { let a2 = &mut acc; a2.push(99); } acc }
+pub fn case_alias_f() -> Vec<i64> { let mut acc = vec![1]; let a2 = &mut acc; a2.push(99); acc }
+pub fn case_alias_g() -> i64 { let mut n = 0; let mut next = || { n += 2; n }; let a = next(); let b = next(); a + b + n }
+pub fn case_alias_h() -> Vec<i64> { let mut n = 0; let mut next = || { n += 2; n }; let v: Vec<i64> = (0..3).map(|i| i * 10 + next()).collect(); v }
+pub fn case_alias_i() -> i64 { let mut n = 0; let mut next = || { n += 2; n }; let _v: Vec<i64> = (0..3).map(|_| next()).collect(); n }
+pub fn case_alias_j() -> i64 { let mut n = 0; let mut next = || { n += 2; n }; for _ in 0..3 { next(); } n }
+pub fn case_alias_k() -> Vec<i64> { let mut log = vec![]; let mut push = |x: i64| log.push(x); for i in 0..3 { if i != 1 { push(i); } } let mut i = 0; while i < 2 { push(10 + i); i += 1; } log }
+pub fn case_closure_scope_1() -> i64 { let mut n = 0; let mut next = || { n += 2; n }; next(); next(); n }
+pub fn case_closure_scope_2() -> i64 { let mut n = 0; let mut next = || { n += 2; n }; for _ in 0..3 { next(); } n }
+pub fn case_closure_scope_3() -> i64 { let mut n = 0; let mut next = || { n += 2; n }; for _ in 0..3 { let _x = next(); } n }
+pub fn case_closure_scope_4() -> i64 { let mut n = 0; let mut next = || { n += 2; n }; if true { next(); } n }
+pub fn case_cf_while_pop() -> Vec<i64> {
+    let mut stack = vec![1, 2, 3];
+    let mut out = vec![];
+    while let Some(x) = stack.pop() {
+        if x == 2 { stack.push(20); stack.push(10); continue; }
+        out.push(x);
+        if out.len() > 10 { break; }
+    }
+    out
+}
+pub fn case_cf_labeled_break_value() -> (i64, i64) {
+    let grid = vec![vec![1, 2, 3], vec![4, 5, 6]];
+    let found = 'outer: loop {
+        for (i, row) in grid.iter().enumerate() {
+            for (j, v) in row.iter().enumerate() {
+                if *v == 5 { break 'outer (i as i64, j as i64); }
+            }
+        }
+        break (-1, -1);
+    };
+    found
+}
+pub fn case_cf_let_else() -> Vec<String> {
+    fn f(s: &str) -> String {
+        let Some((k, v)) = s.split_once('=') else { return format!("no-eq:{}", s); };
+        let Ok(n) = v.trim().parse::<i64>() else { return format!("nan:{}", k); };
+        format!("{}={}", k.trim(), n + 1)
+    }
+    vec![f("a = 4"), f("b"), f("c=x")]
+}
+pub fn case_cf_match_guards() -> Vec<String> {
+    fn f(v: Option<(i64, &str)>) -> String {
+        match v {
+            Some((n, s)) if n < 0 => format!("neg {}", s),
+            Some((n @ 0..=9, _)) => format!("digit {}", n),
+            Some((n, "big")) | Some((n, "huge")) => format!("named {}", n),
+            Some((_, s)) if s.is_empty() => "empty".to_string(),
+            Some(other) => format!("{:?}", other),
+            None => "none".to_string(),
+        }
+    }
+    vec![f(Some((-1, "a"))), f(Some((5, "b"))), f(Some((50, "big"))), f(Some((60, "huge"))), f(Some((70, ""))), f(Some((80, "x"))), f(None)]
+}
+pub fn case_cf_fnmut_counter() -> Vec<i64> {
+    let mut n = 0;
+    let mut next = || { n += 2; n };
+    let a = next();
+    let b = next();
+    let v: Vec<i64> = (0..3).map(|i| i * 10 + next()).collect();
+    let mut out = vec![a, b];
+    out.extend(v);
+    out.push(n);
+    out
+}
+pub fn case_cf_mut_param() -> Vec<String> {
+    fn add(v: &mut Vec<i64>, s: &mut String, n: i64) -> bool { if n % 2 == 0 { v.push(n); s.push('e'); true } else { s.push('o'); false } }
+    let mut v = vec![];
+    let mut s = String::new();
+    let rs: Vec<bool> = (1..=4).map(|n| add(&mut v, &mut s, n)).collect();
+    vec![format!("{:?}", v), s, format!("{:?}", rs)]
+}
+pub fn case_cf_iter_mut_loop() -> Vec<i64> {
+    let mut v = vec![1, 2, 3];
+    for x in v.iter_mut() { *x *= 3; }
+    for x in &mut v { if *x > 5 { *x -= 1; } }
+    for (i, x) in v.iter_mut().enumerate() { *x += i as i64; }
+    v
+}
+pub fn case_cf_retain_dedup_drain() -> Vec<String> {
+    let mut v = vec![1, 1, 2, 3, 3, 3, 4, 1];
+    v.dedup();
+    let d = format!("{:?}", v);
+    v.retain(|x| *x != 3);
+    let r = format!("{:?}", v);
+    let dr: Vec<i64> = v.drain(1..3).collect();
+    let mut w = vec!["bb", "a", "ccc"];
+    w.sort_by_key(|s| s.len());
+    let mut z = vec![3, 1, 2];
+    z.sort_by(|a, b| b.cmp(a));
+    vec![d, r, format!("{:?}", dr), format!("{:?}", v), format!("{:?}", w), format!("{:?}", z)]
+}
+pub fn case_cf_char_scanner() -> Vec<String> {
+    fn scan(s: &str) -> Vec<String> {
+        let mut out = vec![];
+        let mut it = s.char_indices().peekable();
+        while let Some((i, c)) = it.next() {
+            if c == '{' && it.peek().map(|(_, c2)| *c2) == Some('{') {
+                it.next();
+                let start = i + 2;
+                let mut end = None;
+                while let Some((j, d)) = it.next() {
+                    if d == '}' && it.peek().map(|(_, c2)| *c2) == Some('}') { it.next(); end = Some(j); break; }
+                }
+                match end { Some(e) => out.push(format!("var:{}", s[start..e].trim())), None => out.push("unclosed".to_string()) }
+            } else if !c.is_whitespace() {
+                out.push(format!("ch:{}", c));
+            }
+        }
+        out
+    }
+    let mut r = scan("a {{ x }}é{{y}} {{ z");
+    r.extend(scan(""));
+    r
+}
+pub fn case_cf_question_in_closure() -> Vec<String> {
+    fn all(v: &[&str]) -> Result<Vec<i64>, String> { v.iter().map(|s| s.parse::<i64>().map_err(|_| format!("bad {}", s))).collect() }
+    fn first_even(v: &[&str]) -> Option<i64> { v.iter().filter_map(|s| s.parse::<i64>().ok()).find(|n| n % 2 == 0) }
+    fn sum(v: &[&str]) -> Result<i64, String> { let mut t = 0; for s in v { t += s.parse::<i64>().map_err(|e| e.to_string().len().to_string())?; } Ok(t) }
+    vec![format!("{:?}", all(&["1", "2"])), format!("{:?}", all(&["1", "x", "y"])), format!("{:?}", first_even(&["1", "q", "4", "6"])), format!("{:?}", sum(&["1", "2"])), format!("{:?}", sum(&["1", "z"]).is_err())]
+}
+pub fn case_cf_shadow_blocks() -> Vec<i64> {
+    let x = 1;
+    let y = { let x = x + 10; x * 2 };
+    let x = x + y;
+    let z = if x > 20 { let y = 5; x + y } else { 0 };
+    let mut acc = vec![x, y, z];
+    { let acc2 = &mut acc; acc2.push(99); }
+    acc
+}
+pub fn case_cf_nested_option_patterns() -> Vec<String> {
+    fn f(v: Option<Option<Result<i64, &str>>>) -> String {
+        match v { Some(Some(Ok(n))) if n > 0 => "pos".into(), Some(Some(Ok(_))) => "nonpos".into(), Some(Some(Err(e))) => format!("err {}", e), Some(None) => "inner none".into(), None => "none".into() }
+    }
+    vec![f(Some(Some(Ok(1)))), f(Some(Some(Ok(0)))), f(Some(Some(Err("x")))), f(Some(None)), f(None)]
+}
+pub fn case_cf_strip_prefix_chain() -> Vec<String> {
+    fn f(s: &str) -> String {
+        if let Some(rest) = s.strip_prefix("$t(") { if let Some(inner) = rest.strip_suffix(')') { return format!("fk:{}", inner.trim()); } return "unclosed".into(); }
+        match s.find("::") { Some(i) => format!("ns:{}|{}", &s[..i], &s[i + 2..]), None => format!("plain:{}", s) }
+    }
+    vec![f("$t( a.b )"), f("$t(a"), f("ns::key"), f("key"), f("::"), f("é::ü")]
+}
+pub fn case_cf_early_return_loop() -> Vec<i64> {
+    fn idx(v: &[i64], t: i64) -> i64 { for (i, x) in v.iter().enumerate() { if *x == t { return i as i64; } if *x > t { break; } } -1 }
+    vec![idx(&[1, 3, 5], 3), idx(&[1, 3, 5], 4), idx(&[1, 3, 5], 9), idx(&[], 1)]
+}
+pub fn case_cf_tuple_swap_assign() -> Vec<i64> {
+    let (mut a, mut b) = (1, 2);
+    (a, b) = (b, a + b);
+    let mut t = (a, b, 0);
+    t.2 = t.0 * t.1;
+    std::mem::swap(&mut a, &mut b);
+    vec![a, b, t.0, t.1, t.2]
+}
